@@ -743,6 +743,130 @@ pub fn lat_pair(rng: &mut Rng) -> (Vec<(Vec<P>, Vec<Vec<P>>)>, Vec<(Vec<P>, Vec<
     }
 }
 
+/// family "cxsplit": one triangulated lattice cut by a vertical line x = c: A is drawn from the cells
+/// left of it, B from the cells right of it, so the operands' BOUNDING BOXES TOUCH along that line (or
+/// are disjoint, when a side stays away from it) while the operands themselves meet in points or along
+/// pieces of the line: tips touching the interior of a long vertical side (collinear vertices are
+/// usually removed), sides shared in part. One of the 8 lattice symmetries is applied, so the common
+/// line is vertical or horizontal and either operand is on either side.
+pub fn cxsplit_pair(kmax: i64, rng: &mut Rng) -> (Vec<(Vec<P>, Vec<Vec<P>>)>, Vec<(Vec<P>, Vec<Vec<P>>)>) {
+    loop {
+        let (kx, ky) = (rng.range(2, kmax.max(2) + 1), rng.range(1, kmax.max(2)));
+        let mode = *rng.pick(&[0u32, 1, 2, 3, 4, 4]);
+        let cut = rng.range(1, kx - 1);
+        let tris = complex(kx, ky, mode, 2, (0, 0));
+        let per = match mode { 2 => 4, _ => 2 };
+        let dens = *rng.pick(&[50u64, 70, 85]);
+        let pick = select(tris.len(), mode, dens, rng);
+        // cells are generated column by column (x outer loop): triangle i belongs to column i / (per * ky)
+        let col = |i: usize| (i / (per * ky as usize)) as i64;
+        let sel_a: Vec<bool> = (0..tris.len()).map(|i| pick[i] && col(i) < cut).collect();
+        let sel_b: Vec<bool> = (0..tris.len()).map(|i| pick[i] && col(i) >= cut).collect();
+        let simp = rng.chance(3, 4);
+        let (a, b) = (group(rings(&tris, &sel_a), simp), group(rings(&tris, &sel_b), simp));
+        if a.is_empty() || b.is_empty() {
+            continue;
+        }
+        let t = rng.below(8) as u32;
+        let tf = |polys: Vec<(Vec<P>, Vec<Vec<P>>)>| -> Vec<(Vec<P>, Vec<Vec<P>>)> {
+            let flip = matches!(t, 1 | 2 | 4 | 7);
+            polys
+                .into_iter()
+                .map(|(e, hs)| {
+                    let mut e2: Vec<P> = e.iter().map(|q| sym(t, *q)).collect();
+                    let mut h2: Vec<Vec<P>> = hs.iter().map(|h| h.iter().map(|q| sym(t, *q)).collect()).collect();
+                    if flip {
+                        e2.reverse();
+                        for h in h2.iter_mut() {
+                            h.reverse();
+                        }
+                    }
+                    (e2, h2)
+                })
+                .collect()
+        };
+        return (tf(a), tf(b));
+    }
+}
+
+/// scale two simple polygons by the least common denominator of all their pairwise meeting points
+/// (None if that needs more than the 2^12 domain allows)
+fn scale_to_integral(a: &[P], b: &[P], extent: i64) -> Option<(Vec<P>, Vec<P>)> {
+    let mut l: i64 = 1;
+    for i in 0..a.len() {
+        for j in 0..b.len() {
+            if let Some(d) = seg_cross_den(a[i], a[(i + 1) % a.len()], b[j], b[(j + 1) % b.len()]) {
+                l = l / gcd(l, d) * d;
+                if l > 600 {
+                    return None;
+                }
+            }
+        }
+    }
+    if l * 2 * extent > 4000 {
+        return None;
+    }
+    let sc = |r: &[P]| -> Vec<P> { r.iter().map(|p| (p.0 * l, p.1 * l)).collect() };
+    Some((sc(a), sc(b)))
+}
+
+/// family "hang": a compact polygon A and a SLIVER B that starts outside A's bounding box on one side
+/// (two of its vertices strictly beyond that side, one of the two edges leaving the outer vertex short
+/// and steep, the other long) and reaches into or through the box: edges of one operand that lie
+/// completely beyond the other's box while their neighbours cross it. Any of the 8 lattice symmetries
+/// is applied, so the sliver hangs in from above, below, the left or the right; general slopes, scaled
+/// to integral meeting points like `lat`.
+pub fn hang_pair(rng: &mut Rng) -> (Vec<(Vec<P>, Vec<Vec<P>>)>, Vec<(Vec<P>, Vec<Vec<P>>)>) {
+    loop {
+        let (w, h) = (rng.range(2, 6), rng.range(1, 4));
+        // A inside [0, w] x [0, h]: a rectangle, a right triangle, or a quadrilateral with its top edge on y = h
+        let a: Vec<P> = match rng.below(4) {
+            0 => vec![(0, 0), (w, 0), (w, h), (0, h)],
+            1 => vec![(0, 0), (w, 0), (rng.range(0, w), h)],
+            2 => vec![(0, 0), (w, 0), (w, rng.range(1, h)), (rng.range(0, w - 1), h)],
+            _ => vec![(rng.range(0, w - 1), 0), (w, rng.range(0, h - 1)), (rng.range(1, w), h), (0, rng.range(1, h))],
+        };
+        if area2(&a) <= 0 || (0..a.len()).any(|i| cross(sub(a[(i + 1) % a.len()], a[i]), sub(a[(i + 2) % a.len()], a[(i + 1) % a.len()])) <= 0) {
+            continue;
+        }
+        // B: outer vertex P and near vertex Q1 strictly above y = h, far vertex Q2 at or below the box's top
+        let p = (rng.range(-2, w + 2), h + rng.range(2, 5));
+        let q1 = (p.0 + rng.range(-2, 2), h + rng.range(1, p.1 - h));
+        let q2 = (rng.range(-2, w + 2), rng.range(-2, h - 1));
+        let mut b = vec![p, q1, q2];
+        if rng.chance(1, 3) {
+            b.push((q2.0 + rng.range(1, 2), q2.1 + rng.range(0, 1)));
+        }
+        if area2(&b) < 0 {
+            b.reverse();
+        }
+        let m = b.len();
+        let simple = area2(&b) > 0
+            && (0..m).all(|i| cross(sub(b[(i + 1) % m], b[i]), sub(b[(i + 2) % m], b[(i + 1) % m])) != 0)
+            && (m == 3 || {
+                let o = |p: P, q: P, r: P| cross(sub(q, p), sub(r, p)).signum();
+                let x = |a1: P, a2: P, b1: P, b2: P| o(a1, a2, b1) * o(a1, a2, b2) <= 0 && o(b1, b2, a1) * o(b1, b2, a2) <= 0;
+                !x(b[0], b[1], b[2], b[3]) && !x(b[1], b[2], b[3], b[0])
+            });
+        if !simple {
+            continue;
+        }
+        let (a, b) = match scale_to_integral(&a, &b, w.max(h) + 8) {
+            Some(x) => x,
+            None => continue,
+        };
+        let t = rng.below(8) as u32;
+        let tf = |r: &[P]| -> Vec<P> {
+            let mut v: Vec<P> = r.iter().map(|q| sym(t, *q)).collect();
+            if area2(&v) < 0 {
+                v.reverse();
+            }
+            v
+        };
+        return (vec![(tf(&a), vec![])], vec![(tf(&b), vec![])]);
+    }
+}
+
 // ------------------------------------------------------------------------------------------
 // family "fan": two triangles that touch only in a common apex O, with edges OP and OQ in
 // ADJACENT FAREY DIRECTIONS (cross(P-O, Q-O) = 1 with |P-O|, |Q-O| in the thousands): the
